@@ -331,11 +331,13 @@ func (vfs *OrefaFS) Link(oldname, newname string) error {
 
 	nDirName, nFileName := avfs.SplitAbs(vfs, nAbsPath)
 
-	vfs.mu.RLock()
+	// The names are looked up and the link is created under the same lock, as Mkdir and Remove do.
+	vfs.mu.Lock()
+	defer vfs.mu.Unlock()
+
 	oChild, oChildOk := vfs.nodes[oAbsPath]
 	_, nChildOk := vfs.nodes[nAbsPath]
 	nParent, nParentOk := vfs.nodes[nDirName]
-	vfs.mu.RUnlock()
 
 	if !oChildOk {
 		err := vfs.err.NoSuchFile
@@ -343,9 +345,7 @@ func (vfs *OrefaFS) Link(oldname, newname string) error {
 		if vfs.OSType() == avfs.OsWindows {
 			oDirName, _ := avfs.SplitAbs(vfs, oAbsPath)
 
-			vfs.mu.RLock()
 			_, oParentOk := vfs.nodes[oDirName]
-			vfs.mu.RUnlock()
 
 			if !oParentOk {
 				err = vfs.err.NoSuchDir
@@ -400,9 +400,7 @@ func (vfs *OrefaFS) Link(oldname, newname string) error {
 		return &os.LinkError{Op: op, Old: oldname, New: newname, Err: err}
 	}
 
-	vfs.mu.Lock()
 	vfs.nodes[nAbsPath] = oChild
-	vfs.mu.Unlock()
 
 	nParent.addChild(nFileName, oChild)
 
@@ -590,10 +588,17 @@ func (vfs *OrefaFS) OpenFile(name string, flag int, perm fs.FileMode) (avfs.File
 	absPath, _ := vfs.Abs(name)
 	dirName, fileName := avfs.SplitAbs(vfs, absPath)
 
-	vfs.mu.RLock()
+	if om&avfs.OpenCreate != 0 {
+		// The name is looked up and the file is created under the same lock, as Mkdir and Remove do.
+		vfs.mu.Lock()
+		defer vfs.mu.Unlock()
+	} else {
+		vfs.mu.RLock()
+		defer vfs.mu.RUnlock()
+	}
+
 	parent, parentOk := vfs.nodes[dirName]
 	child, childOk := vfs.nodes[absPath]
-	vfs.mu.RUnlock()
 
 	if !childOk {
 		if !parentOk {
@@ -610,15 +615,6 @@ func (vfs *OrefaFS) OpenFile(name string, flag int, perm fs.FileMode) (avfs.File
 
 		if om&avfs.OpenWrite == 0 {
 			return (*OrefaFile)(nil), &fs.PathError{Op: op, Path: name, Err: vfs.err.PermDenied}
-		}
-
-		vfs.mu.Lock()
-		defer vfs.mu.Unlock()
-
-		// test for race conditions when opening file in exclusive mode.
-		_, childOk = vfs.nodes[absPath]
-		if childOk && om&avfs.OpenCreateExcl != 0 {
-			return (*OrefaFile)(nil), &fs.PathError{Op: op, Path: name, Err: vfs.err.FileExists}
 		}
 
 		child = vfs.createFile(parent, absPath, fileName, perm)
@@ -800,12 +796,14 @@ func (vfs *OrefaFS) Rename(oldname, newname string) error {
 	oDirName, oFileName := avfs.SplitAbs(vfs, oAbsPath)
 	nDirName, nFileName := avfs.SplitAbs(vfs, nAbsPath)
 
-	vfs.mu.RLock()
+	// The names are looked up and the entry is moved under the same lock, as Mkdir and Remove do.
+	vfs.mu.Lock()
+	defer vfs.mu.Unlock()
+
 	oChild, oChildOk := vfs.nodes[oAbsPath]
 	oParent, oParentOk := vfs.nodes[oDirName]
 	nChild, nChildOk := vfs.nodes[nAbsPath]
 	nParent, nParentOk := vfs.nodes[nDirName]
-	vfs.mu.RUnlock()
 
 	if !oChildOk || !oParentOk || !nParentOk {
 		return &os.LinkError{Op: op, Old: oldname, New: newname, Err: vfs.err.NoSuchFile}
@@ -857,9 +855,6 @@ func (vfs *OrefaFS) Rename(oldname, newname string) error {
 	nParent.addChild(nFileName, oChild)
 
 	delete(oParent.children, oFileName)
-
-	vfs.mu.Lock()
-	defer vfs.mu.Unlock()
 
 	vfs.nodes[nAbsPath] = oChild
 	delete(vfs.nodes, oAbsPath)
